@@ -34,8 +34,13 @@ impl<H: Hal, T: Transport, const QUEUE_SIZE: usize> VirtIONetRaw<H, T, QUEUE_SIZ
 
         // Read configuration space.
         let mac = transport.read_consistent(|| read_config!(transport, Config, mac))?;
-        let status = read_config!(transport, Config, status)?;
-        debug!("Got MAC={:02x?}, status={:?}", mac, status);
+        // The status field only exists if VIRTIO_NET_F_STATUS was negotiated.
+        if negotiated_features.contains(Features::STATUS) {
+            let status = read_config!(transport, Config, status)?;
+            debug!("Got MAC={:02x?}, status={:?}", mac, status);
+        } else {
+            debug!("Got MAC={:02x?}", mac);
+        }
 
         let send_queue = VirtQueue::new(
             &mut transport,
